@@ -411,7 +411,9 @@ def check_oracle(dirname, oracles):
                     os.path.join(cli_args.test_directory, 'tmp', str(pid)),
                     os.path.join(cli_args.test_directory, str(pid)))
                 proc_res.stats['error'] = compiler.crash_msg
-                output[pid] = proc_res.stats
+            # Every program of a crashed batch is reported; a program on which
+            # the tool itself failed keeps its own error message.
+            output[pid] = proc_res.stats
         return output, compilation_time
 
     output = {}
